@@ -16,12 +16,18 @@ pub fn run(tier: Tier) -> i32 {
     let mut run = Run::new("C03", tier);
     run.assume("non-termination is judged by a 20 s deadline per case on inputs far below 8 KiB (normal cost < 1 ms)");
     run.assume("scaling factors are finite and positive; serving counts >= 1");
-    run.replay_regressions(&|_part, j| replay_input(j, &oracle));
+    run.replay_regressions(&|part, j| if part == "converters" { crate::c03_conv::check(&case_from(j)?, &mut Stats::default()) } else { replay_input(j, &oracle) });
     let b = budget(tier, 1.0);
-    if !run.failed() {
+    let only_conv = std::env::var("VERIF_C03_CONV_ONLY").is_ok();
+    if !run.failed() && !only_conv {
         run_inputs(&mut run, &b, NONTRIVIAL, &oracle);
     }
-    crate::recipe_inputs::run_recipe_inputs(&mut run, &b, NONTRIVIAL, &oracle);
+    if !only_conv {
+        crate::recipe_inputs::run_recipe_inputs(&mut run, &b, NONTRIVIAL, &oracle);
+    }
+    if !run.failed() {
+        crate::c03_conv::run_part(&mut run, tier.pick(3_000, 200_000));
+    }
     crate::big::run_big_part(&mut run, tier, "every public consumer must return");
     if tier == Tier::Thorough && !run.failed() {
         crate::fuzzleg::run_fuzz_leg(&mut run, FUZZ_RUNS, &oracle);
@@ -30,6 +36,9 @@ pub fn run(tier: Tier) -> i32 {
 }
 
 pub fn replay(part: &str, j: &serde_json::Value) -> Verdict {
+    if part == "converters" {
+        return crate::c03_conv::check(&case_from(j)?, &mut Stats::default());
+    }
     if part == "large-inputs" {
         return crate::big::replay(inv::c03_pipeline, j);
     }
